@@ -92,19 +92,23 @@ def check_slots(program, env, share_tables, okw):
     """Final observation pass: compare every object slot with its linear rebuild."""
     bad = []
     n_obs = 0
+    trail = []
     for i in range(len(program)):
         v = env.heap[i]
         if isinstance(v, (lang.Skipped, lang.Value, engine.MutableAlias)):
+            trail.append(type(v).__name__)
             continue
         if isinstance(v, lang.Failed) and v.injected:
+            trail.append("injected")
             continue
         a = engine.slot_obs(env, i, **okw)
         r = engine.reference_obs(program, i, share_tables, **okw)
         n_obs += 1
+        trail.append(obs.strip_inprocess(a))
         d = obs.diff(a, r)
         if d:
             bad.append((i, d))
-    return bad, n_obs
+    return bad, n_obs, runner.digest(trail)
 
 
 def ablate(program, victim, share_tables, keep=None, okw=None):
@@ -236,8 +240,12 @@ def one_run(seed, run, force_config=None, overrides=None, max_diag=3):
         res["preempt_in_lib"] = getattr(sim, "preempt_in_lib", 0)
         res["skipped_after_fault"] = sum(1 for v in env.heap if isinstance(v, lang.Skipped))
 
-    bad, n_obs = check_slots(program, env, st, okw)
+    bad, n_obs, trail = check_slots(program, env, st, okw)
     res["n_obs"] = n_obs
+    # full digest: exact repeat under the same PYTHONHASHSEED; xdigest: what must also agree under another
+    # hash seed (the library's own set iteration makes step counts, hence schedules, hash-seed dependent)
+    res["xdigest"] = runner.digest([program, config, plan, trail, sorted(res["fired"].items())])
+    res["digest"] = runner.digest([res["xdigest"], trace, res["steps"], res["schedule_hash"]])
     seen_sig = set()
     for victim, d in bad[:max_diag]:
         # 1. ablation: same history, observe only the victim, once
